@@ -82,6 +82,9 @@ func vhRequest(sys *System, ctx *Context, op int, loc string) vhResp {
 	case 6:
 		err := sys.DeleteLocation(ctx, loc)
 		return vhResp{nil, err != nil}
+	case 7: // a client writes the creation marker property itself, with an odd value
+		_, err := sys.AddFact(ctx, loc, "", `{"!createdAt":5}`)
+		return vhResp{nil, err != nil}
 	}
 	vassume(false)
 	return vhResp{}
